@@ -16,6 +16,14 @@ BOOL_OPTS = ["tracing/actor", "tracing/uncategorized", "tracing/categorized", "t
 def cases(draw):
     prog = draw(syncgen.programs(kinds=("mutex", "sem", "mailbox", "exec", "async"), max_actors=4, max_ops=8, min_actors=1,
                                  platform=s4u.small_shared_platform()))
+    # most programs should terminate: serve the unmatched puts and gets of every mailbox (kills and suspensions still produce deadlocks)
+    if draw(st.integers(0, 5)) > 0:
+        for mb in range(prog["objects"].get("mailbox", 0)):
+            np_ = sum(1 for a in prog["actors"] for o in a["ops"] if o[0] in ("put", "put_async") and o[1] == mb)
+            ng = sum(1 for a in prog["actors"] for o in a["ops"] if o[0] in ("get", "get_async") and o[1] == mb)
+            if np_ != ng:
+                prog["actors"].append({"name": "srv%d" % mb, "host": draw(st.sampled_from(HOSTS)), "daemon": draw(st.booleans()),
+                                       "ops": [["get", mb, {}] if np_ > ng else ["put", mb, 64, {}]] * abs(np_ - ng)})
     durations = st.sampled_from([0.0, 0.25, 0.5, 1.0, 2.0])
     simple = st.one_of(st.tuples(st.just("sleep"), durations), st.tuples(st.just("exec"), st.sampled_from([0.0, 256.0, 1024.0, 4096.0]), st.just({})),
                        st.tuples(st.just("set_host"), st.sampled_from(HOSTS)), st.tuples(st.just("yield")),
@@ -49,6 +57,10 @@ def cases(draw):
         else:
             op = ["exec", draw(st.sampled_from([256.0, 1024.0])), {}]
         a["ops"].insert(draw(st.integers(0, len(a["ops"]))), op)
+    for a in prog["actors"]:
+        if "daemon" not in a and draw(st.integers(0, 7)) == 0:
+            a["daemon"] = True
+            a["ops"].append(["sleep", 1000.0])
     opts = {}
     for o in BOOL_OPTS:
         p = 4 if o in ("tracing/actor", "tracing/uncategorized") else 1
